@@ -27,12 +27,16 @@ def main():
     skip_confirm = os.environ.get("SEED_SKIP_CONFIRM") == "1"
     out = os.path.join(VERIF, "seeded", name)
     os.makedirs(out, exist_ok=True)
-    if os.path.abspath(patch) != os.path.join(out, "patch.diff"):
+    keep = os.environ.get("SEED_KEEP_PATCH") == "1"   # use the given patch file as it is (a variant kept beside patch.diff)
+    if not keep and os.path.abspath(patch) != os.path.join(out, "patch.diff"):
         shutil.copy(patch, os.path.join(out, "patch.diff"))
     demo_name = os.path.basename(demo)
     if os.path.abspath(demo) != os.path.join(out, demo_name):
         shutil.copy(demo, os.path.join(out, demo_name))
-    patch = os.path.join(out, "patch.diff")
+    if not keep:
+        patch = os.path.join(out, "patch.diff")
+    else:
+        patch = os.path.abspath(patch)
     demo = os.path.join(out, demo_name)
     src = open(demo).read()
     tests = re.findall(r"^func (Test\w+)\(", src, re.M)
